@@ -275,11 +275,25 @@ class Runner:
             res = with_timeout(lambda: self.mod.run_impl(case), self.case_timeout)
         except CaseTimeout:
             hang = getattr(self.mod, "HANG_IS_VIOLATION", False)
-            if hang:
-                self.record_oracle(case, "timeout", f"implementation did not return within {self.case_timeout}s")
-            else:
+            if not hang:
                 self.timeouts.append(case)
-            return
+                return
+            # the watchdog is a wall-clock timer: before a hang is reported, the case is run again with a twenty-fold
+            # budget, so that a descheduled process on a loaded machine is not mistaken for a non-terminating parser
+            confirm = max(20.0 * self.case_timeout, 20.0)
+            if getattr(self, "confirmed_hangs", 0) >= 2:
+                # two hangs are confirmed already (the run is a violation); further ones are recorded at the short budget
+                self.record_oracle(case, "timeout", f"implementation did not return within {self.case_timeout}s")
+                return
+            try:
+                res = with_timeout(lambda: self.mod.run_impl(case), confirm)
+                self.timeouts.append(case)
+            except CaseTimeout:
+                self.confirmed_hangs = getattr(self, "confirmed_hangs", 0) + 1
+                self.record_oracle(case, "timeout", f"implementation did not return within {self.case_timeout}s (confirmed with {confirm}s)")
+                return
+            except Exception as e:  # noqa: BLE001
+                res = {"out": f"harness-exc {type(e).__name__}", "detail": traceback.format_exc()[-800:]}
         except Exception as e:  # noqa: BLE001  harness bug or unexpected impl exception
             res = {"out": f"harness-exc {type(e).__name__}", "detail": traceback.format_exc()[-800:]}
         if isinstance(res, str):
